@@ -79,9 +79,9 @@ func actSetvars(r R, id int, capture bool) []sl.Setvar {
 		case 6:
 			out = append(out, sl.Setvar{Key: "seen_%{MATCHED_VAR_NAME}", Kind: "+", Val: "1"})
 		case 7:
-			out = append(out, sl.Setvar{Key: Pick(r, []string{"flag", "score", "last"}), Kind: "!"})
+			out = append(out, sl.Setvar{Key: Pick(r, []string{"flag", "Flag", "score", "SCORE", "last", "seen_%{MATCHED_VAR_NAME}", fmt.Sprintf("F%d", id)}), Kind: "!"})
 		case 8:
-			out = append(out, sl.Setvar{Key: "flag", Kind: "flag"})
+			out = append(out, sl.Setvar{Key: Pick(r, []string{"flag", "Flag"}), Kind: "flag"})
 		default:
 			if capture {
 				out = append(out, sl.Setvar{Key: "cap", Kind: "=", Val: "%{TX.1}-%{TX.2}"})
